@@ -27,16 +27,21 @@ func nilFirst(which string) func(r *engine.Rec) {
 			"empty []any": []any{}, "empty map": map[string]any{}, "empty List": col.List[any](N()).Make(), "pointer": &x,
 		}
 		wraps := map[string]func(v any) any{
-			"item of []any":                   func(v any) any { return []any{v} },
-			"second item of []any":            func(v any) any { return []any{int64(1), v} },
-			"item of List[any]":               func(v any) any { return col.List[any](N()).MakeFromArray([]any{v}) },
-			"second item of List[any]":        func(v any) any { return col.List[any](N()).MakeFromArray([]any{"a", v}) },
-			"item of Stack[any]":              func(v any) any { return col.Stack[any](N()).MakeFromArray([]any{v}) },
-			"value in map[string]any":         func(v any) any { return map[string]any{"k": v} },
-			"value in Catalog[string,any]":    func(v any) any { c := col.Catalog[string, any](N()).Make(); c.SetValue("k", v); return c },
-			"value in Map[string,any]":        func(v any) any { m := col.Map[string, any](N()).Make(); m.SetValue("k", v); return m },
-			"item of []any inside List[any]":  func(v any) any { return col.List[any](N()).MakeFromArray([]any{[]any{v}}) },
-			"value of the second association": func(v any) any { c := col.Catalog[string, any](N()).Make(); c.SetValue("a", int64(1)); c.SetValue("b", v); return c },
+			"item of []any":                  func(v any) any { return []any{v} },
+			"second item of []any":           func(v any) any { return []any{int64(1), v} },
+			"item of List[any]":              func(v any) any { return col.List[any](N()).MakeFromArray([]any{v}) },
+			"second item of List[any]":       func(v any) any { return col.List[any](N()).MakeFromArray([]any{"a", v}) },
+			"item of Stack[any]":             func(v any) any { return col.Stack[any](N()).MakeFromArray([]any{v}) },
+			"value in map[string]any":        func(v any) any { return map[string]any{"k": v} },
+			"value in Catalog[string,any]":   func(v any) any { c := col.Catalog[string, any](N()).Make(); c.SetValue("k", v); return c },
+			"value in Map[string,any]":       func(v any) any { m := col.Map[string, any](N()).Make(); m.SetValue("k", v); return m },
+			"item of []any inside List[any]": func(v any) any { return col.List[any](N()).MakeFromArray([]any{[]any{v}}) },
+			"value of the second association": func(v any) any {
+				c := col.Catalog[string, any](N()).Make()
+				c.SetValue("a", int64(1))
+				c.SetValue("b", v)
+				return c
+			},
 		}
 		coll := age.Collator[any]().Make()
 		for wn, w := range wraps {
